@@ -14,7 +14,7 @@ EXPL = ("Q1: the interprocedural write set of every public modelling entry point
         "names; no random source is reachable. Q1-Q3 imply that results are a function of the argument values alone and that the "
         "arguments are unchanged, for every history of calls.")
 
-IO_OR_PLOT = ("save", "load", "safe_save", "safe_load", "plot", "from_csv", "from_frame", "from_dict", "_generate_process_path",
+IO_OR_PLOT = ("save", "load", "safe_save", "safe_load", "plot", "from_csv", "from_frame", "from_dict",
               "append")   # Measurements.append is the container's own builder method: mutating its receiver is its purpose
 EXCEPTIONS = {
     ("DiffusionCurve.get_permeances", "self"): "assigns self.permeances only under 'self.permeances is None', which cannot hold after construction "
@@ -122,6 +122,13 @@ def run(ck):
             for c in ast.iter_child_nodes(n):
                 parents[c] = n
     modelling = {fkey(f) for f in eps}
+    _reach = {}
+
+    def reach_of(e):
+        r = _reach.get(e.qualname)
+        if r is None:
+            r = _reach[e.qualname] = cg.reachable([e])
+        return r
     for k, f in cg.funcs.items():
         for dotted, node in cg.externals[k]:
             if any(dotted == a or dotted.startswith(a) for a in RANDOM):
@@ -132,7 +139,8 @@ def run(ck):
                 n_amb += 1
                 # walk up: the value must end in a comments= keyword, or the function is the directory-name generator
                 cur = node
-                ok = f.name in ("_generate_process_path",)
+                # a helper that only the persistence functions reach (the directory-name generator) is outside the modelling calls
+                ok = not any(k in reach_of(e) for e in eps)
                 while cur in parents and not ok:
                     par = parents[cur]
                     if isinstance(par, ast.keyword) and par.arg in ("comments", "comment"):
